@@ -87,13 +87,15 @@ fn process_entry(c: &Corpus, e: &Entry, tier: Tier, seed: u64, known: &KnownFind
     let mut r = EntryReport::new(e.label());
     let ep = c.ep(e);
     let encf = |t: &[u8], f: &BTreeMap<String, u32>| c.encode(e, t, f);
-    let max_runs = tier.pick(250, 3000);
+    let max_runs = tier.pick(700, 6000);
     let mut tapes: Vec<Vec<u8>> = vec![vec![]];
     for k in 0..tier.pick(1u64, 4) {
         let s = vcommon::mix(seed, vcommon::fnv(e.label().as_bytes()) ^ (k + 41));
         tapes.push((0..512u64).map(|i| (vcommon::mix(s, i) >> 24) as u8).collect());
     }
-    let mut done: BTreeSet<(String, &'static str, u8)> = BTreeSet::new();
+    // one fault per (field, value class, array position, control shape of the encoding): the same member is read by
+    // a separate copy of generated code in every branch that contains it
+    let mut done: BTreeSet<(String, &'static str, u8, u64)> = BTreeSet::new();
     let mut failed: BTreeSet<String> = BTreeSet::new();
     let mut fail = |r: &mut EntryReport, kind: String, detail: String, j: Value| {
         if let Some(s) = known_sig(known, "C04", "c04", &e.label(), &kind) {
@@ -142,7 +144,7 @@ fn process_entry(c: &Corpus, e: &Entry, tier: Tier, seed: u64, known: &KnownFind
                 let wsigned = signed && !l.upcast;
                 let site = crate::oracle::strip_indices(&l.path);
                 for (v, class) in candidates(&declared, base_bytes, l.width, wsigned) {
-                    if !done.insert((site.clone(), class, pos)) {
+                    if !done.insert((site.clone(), class, pos, enc.shape())) {
                         continue;
                     }
                     let frame = mutate(enc, l, v);
